@@ -16,11 +16,13 @@ from __future__ import annotations
 
 import ast
 import re
+from fractions import Fraction
 
 from ..cfg import DataFlow
 from ..model import AnalysisError, call_name, dotted, kw, last_attr, norm_text, walk_no_nested
 from ..rules.absint import PathInterp
 from ..rules.shapes import NONE, SCALAR, UNKNOWN, Arr, DictV, IntV, ShapeDomain, Tup, dim, shape_text
+from ..rules import roundform as _rf
 from ..rules.versioned import CanonNormalizer
 from ..terms import Poly
 
@@ -493,87 +495,22 @@ def _peel(expr: ast.AST) -> tuple[ast.AST, list[str]]:
 
 
 class _WindowEval:
-    """Evaluates the integer arithmetic of the window helper for concrete window / array extents and centres.
+    """Reads the arithmetic of the window helper into the componentwise normal form of sa/rules/roundform.py.
 
-    Leaves are the components of the three parameters (by tuple unpacking or constant subscript); everything else is
-    followed through single reaching definitions.  Code outside + - * // % on such leaves is an AnalysisError."""
+    Leaves are the components of the three parameters (centre: real-valued, window / array extents: integers); vector
+    expressions (`np.array((nx, ny))`, wrappers, casts of whole numbers, tuple unpacking, temporaries) are evaluated
+    component by component with ROUND(.) and FLOORDIV(., d) atoms.  Code outside that language is an AnalysisError."""
 
     def __init__(self, f, df):
         self.f, self.df = f, df
         self.center, self.window, self.array = f.positional_params[:3]
-        self.center_rounders: set[str] = set()
-        self.center_unrounded = False
+        self.roles = _rf.Roles({"center": False, "window": True, "array": True})
+        self.sym = _rf.RoundEval(f, df, {self.center: "center", self.window: "window", self.array: "array"},
+                                 self.roles)
 
-    def _component(self, root: ast.AST, k: int, env: dict):
-        core, rounders = _peel(root)
-        if not isinstance(core, ast.Name) or core.id not in (self.center, self.window, self.array):
-            raise AnalysisError(f"{self.f.qualname}: component {k} of `{norm_text(root)[:50]}` is not a component of a "
-                                "parameter")
-        d = self.df.reaching(self.df.cfg.entry, core.id)
-        if core.id == self.center:
-            if rounders:
-                self.center_rounders |= set(rounders)
-            else:
-                self.center_unrounded = True
-        elif rounders:
-            raise AnalysisError(f"{self.f.qualname}: a shape is rounded")
-        return env[(core.id, k)]
-
-    def ev(self, e: ast.AST, at: int, env: dict, depth: int = 0):
-        if depth > 24:
-            raise AnalysisError(f"{self.f.qualname}: definition chain too deep")
-        if isinstance(e, ast.Constant) and isinstance(e.value, int) and not isinstance(e.value, bool):
-            return e.value
-        if isinstance(e, ast.UnaryOp) and isinstance(e.op, (ast.USub, ast.UAdd)):
-            v = self.ev(e.operand, at, env, depth + 1)
-            return -v if isinstance(e.op, ast.USub) else v
-        if isinstance(e, ast.BinOp) and isinstance(e.op, (ast.Add, ast.Sub, ast.Mult, ast.FloorDiv, ast.Mod)):
-            a, b = self.ev(e.left, at, env, depth + 1), self.ev(e.right, at, env, depth + 1)
-            if isinstance(e.op, ast.Add):
-                return a + b
-            if isinstance(e.op, ast.Sub):
-                return a - b
-            if isinstance(e.op, ast.Mult):
-                return a * b
-            if b == 0:
-                raise AnalysisError(f"{self.f.qualname}: division by zero in the window arithmetic")
-            return a // b if isinstance(e.op, ast.FloorDiv) else a % b
-        if isinstance(e, ast.Call) and _short_callee(e) == "int" and len(e.args) == 1:
-            return self.ev(e.args[0], at, env, depth + 1)
-        if isinstance(e, ast.Subscript) and isinstance(e.slice, ast.Constant) and e.slice.value in (0, 1) \
-                and not isinstance(e.slice.value, bool):
-            return self._component(self._resolve_root(e.value, at), e.slice.value, env)
-        if isinstance(e, ast.Name):
-            d = self.df.single_def(at, e.id)
-            if d is None or d.kind != "assign" or d.value is None:
-                raise AnalysisError(f"{self.f.qualname}: `{e.id}` has no single defining assignment")
-            st = self.df.cfg.nodes[d.node].ast
-            if isinstance(st, ast.Assign) and d.value is st.value and isinstance(st.targets[0], (ast.Tuple, ast.List)):
-                names = [t.id if isinstance(t, ast.Name) else None for t in st.targets[0].elts]
-                if len(names) != 2 or e.id not in names:
-                    raise AnalysisError(f"{self.f.qualname}: cannot read the unpacking `{norm_text(st)[:60]}`")
-                return self._component(self._resolve_root(d.value, d.node), names.index(e.id), env)
-            return self.ev(d.value, d.node, env, depth + 1)
-        raise AnalysisError(f"{self.f.qualname}: `{norm_text(e)[:60]}` is outside the window arithmetic")
-
-    def _resolve_root(self, e: ast.AST, at: int) -> ast.AST:
-        """Follow plain temporaries of a whole (2-component) value down to an expression over a parameter."""
-        hops = 0
-        while True:
-            core, _ = _peel(e)
-            if isinstance(core, ast.Name) and core.id not in (self.center, self.window, self.array) and hops < 8:
-                d = self.df.single_def(at, core.id)
-                if d is None or d.kind != "assign" or d.value is None:
-                    return e
-                # re-wrap: the peeled wrappers of `e` are value preserving or roundings; keep the roundings
-                _, rounders = _peel(e)
-                inner = d.value
-                for r in rounders:
-                    inner = ast.Call(func=ast.Name(id=r, ctx=ast.Load()), args=[inner], keywords=[])
-                e, at = inner, d.node
-                hops += 1
-                continue
-            return e
+    def form(self, e: ast.AST, at: int):
+        """Normal form of a single component."""
+        return self.sym.scalar(self.sym.ev(e, at), e)
 
     def resolve_expr(self, e: ast.AST, at: int) -> tuple[ast.AST, int]:
         hops = 0
@@ -597,9 +534,69 @@ _WINDOW_ENVS = [  # (window extents, array extents, centres)
     ((9, 10), (37, 41), (0, 1)),
 ]
 
+# extents of both parities on both axes; centres on the grid, off the grid, exactly between two pixels (numpy rounds
+# half to even: the parity of the neighbouring pixel matters), negative, and with both components varying independently
+_ROUND_EXTENTS = [((5, 8), (31, 47)), ((8, 5), (47, 31)), ((4, 7), (29, 53)), ((7, 4), (53, 29)), ((1, 2), (17, 19)),
+                  ((6, 3), (23, 13)), ((16, 15), (64, 64)), ((15, 16), (64, 64))]
+_F = Fraction
+_ROUND_CENTRES = [(_F(20), _F(7)), (_F(21), _F(15, 2)), (_F(203, 10), _F(43, 5)), (_F(41, 2), _F(19, 2)),
+                  (_F(43, 2), _F(21, 2)), (_F(207, 10), _F(-7, 2)), (_F(-7, 2), _F(20)), (_F(-9, 2), _F(21)),
+                  (_F(-16, 5), _F(0)), (_F(0), _F(1, 2)), (_F(1, 2), _F(100)), (_F(20), _F(101)), (_F(7), _F(203, 10))]
+
+
+def _env(we, win, arr, cen) -> dict:
+    env = {}
+    for role, vals in (("window", win), ("array", arr), ("center", cen)):
+        env[(role, 0)], env[(role, 1)] = vals
+    return env
+
+
+def _num(q) -> str:
+    q = Fraction(q)
+    return str(q.numerator) if q.denominator == 1 else str(float(q))
+
+
+def _window_round(ctx, f, we, k: int, lo, where) -> None:
+    """R-WINDOWROUND for axis k: lo == ROUND(centre[k]) + (something the centre does not enter)."""
+    construct = f"{f.qualname}:axis {k}"
+    target = _rf.mk_round(_rf.Lin.leaf("center", k), we.roles)
+    rest = lo - target
+    if not _rf.has_role(rest, "center"):
+        ctx.ok("R-WINDOWROUND", construct, where,
+               f"first index = ROUND(centre[{k}]) + ({rest.text()}): the window follows the rounded position rigidly")
+        return
+    raw = [1 for role, _, depth in _rf.leaves(lo) if role == "center" and depth == 0]
+    if raw or not _rf.is_integer(lo, we.roles):
+        raise AnalysisError(f"{f.qualname}: the centre position is not rounded to a pixel by a recognised function")
+    # the centre enters through some other rounding: look for two centres whose windows sit differently relative to
+    # the pixel the position rounds to
+    for win, arr in _ROUND_EXTENTS:
+        seen = None
+        for cen in _ROUND_CENTRES:
+            env = _env(we, win, arr, cen)
+            r = Fraction(round(cen[k]))
+            off = r - _rf.value(lo, env)
+            if seen is None:
+                seen = (cen, r, off)
+            elif off != seen[2]:
+                c0, r0, off0 = seen
+                ctx.violation(
+                    "R-WINDOWROUND", construct, where,
+                    f"the first index of the window is {lo.text()}, which is not ROUND(centre[{k}]) plus a term "
+                    f"independent of the centre: with a window extent of {win[k]} the position "
+                    f"({_num(c0[0])}, {_num(c0[1])}) rounds to pixel {_num(r0)}, which becomes window pixel {_num(off0)}, "
+                    f"but the position ({_num(cen[0])}, {_num(cen[1])}) rounds to pixel {_num(r)}, which becomes window "
+                    f"pixel {_num(off)}.  The probe is shifted by position - round(position) relative to one fixed "
+                    "window pixel, so for such positions the object window is a pixel off the pixel the probe sits on: "
+                    "the exit wave of the true object and probe does not reproduce the measured amplitudes (non-zero "
+                    "error, object and probe are modified)", key_detail="rigid")
+                return
+    raise AnalysisError(f"{f.qualname}: cannot decide whether the first index {lo.text()[:80]} of axis {k} follows the "
+                        "rounded centre")
+
 
 def _window(ctx, repo) -> set:
-    """R-WINDOW; returns the set of rounding functions that place the window."""
+    """R-WINDOWROUND / R-WINDOW; returns the set of rounding functions that place the window."""
     f = repo.function(MOD, WINDOW_FN)
     ctx.require(len(f.positional_params) == 3, f"{f.qualname}: signature changed")
     df = DataFlow(f.node)
@@ -617,20 +614,19 @@ def _window(ctx, repo) -> set:
         rng, rat = we.resolve_expr(a.left, aat)
         ctx.require(isinstance(rng, ast.Call) and _short_callee(rng) == "arange" and len(rng.args) == 2
                     and not rng.keywords, f"{f.qualname}: index vector {k} is not arange(lo, hi) % extent")
+        lo_f, hi_f, m_f = we.form(rng.args[0], rat), we.form(rng.args[1], rat), we.form(a.right, aat)
+        _window_round(ctx, f, we, k, lo_f, f.loc(rets[0]))
         problems = []
         for win, arr, cen in _WINDOW_ENVS:
-            env = {}
-            for name, vals in ((we.window, win), (we.array, arr), (we.center, cen)):
-                env[(name, 0)], env[(name, 1)] = vals
-            lo, hi = we.ev(rng.args[0], rat, env), we.ev(rng.args[1], rat, env)
-            m = we.ev(a.right, aat, env)
+            env = _env(we, win, arr, cen)
+            lo, hi, m = (_rf.value(x, env) for x in (lo_f, hi_f, m_f))
             n, s, c = win[k], arr[k], cen[k]
             if hi - lo != n:
-                problems.append(f"the window has {hi - lo} entries for a window extent of {n}")
+                problems.append(f"the window has {_num(hi - lo)} entries for a window extent of {n}")
             elif m != s:
-                problems.append(f"indices are wrapped modulo {m} in an array of extent {s}")
+                problems.append(f"indices are wrapped modulo {_num(m)} in an array of extent {s}")
             elif c - lo not in (n // 2, (n - 1) // 2):
-                problems.append(f"a window of {n} pixels centred at pixel {c} starts at pixel {lo}: the centre is "
+                problems.append(f"a window of {n} pixels centred at pixel {c} starts at pixel {_num(lo)}: the centre is "
                                 f"{'outside the window' if not 0 <= c - lo < n else 'not in the middle of the window'}")
             if problems:
                 break
@@ -639,9 +635,7 @@ def _window(ctx, repo) -> set:
                   f"modulus is the array extent of the same axis",
                   (problems[0] if problems else "") + " — the exit wave is formed with the wrong part of the object: "
                   "the true object and probe are not a fixed point of the update", key_detail=f"axis{k}")
-    if we.center_unrounded or not we.center_rounders:
-        raise AnalysisError(f"{f.qualname}: the centre position is not rounded to a pixel by a recognised function")
-    return we.center_rounders
+    return {"round"}
 
 
 def _overlap_methods(repo):
@@ -851,6 +845,17 @@ def run(ctx) -> None:  # noqa: F811
              "evaluating the integer arithmetic for several extents and centres.  Otherwise the exit wave is formed "
              "with a part of the object other than the illuminated one and the true object/probe pair is not a fixed "
              "point")
+    ctx.rule("R-WINDOWROUND", "per axis k the first index of the object window is ROUND(centre[k]) plus a term the "
+             "centre does not enter, ROUND being numpy's round-half-to-even applied to the raw position (the rounding "
+             "the sub-pixel probe shift position - round(position) of R-FRACSHIFT is taken against).  Decided on the "
+             "componentwise normal form of the index arithmetic (linear forms over Q with ROUND(.) and FLOORDIV(., d) "
+             "atoms; vector literals, wrappers, whole-number casts, unpacking and temporaries are read through; nothing "
+             "is moved out of a ROUND, because round(x - n/2) != round(x) - n//2 for odd n and round(x - m) != round(x) "
+             "- m for odd m at half-pixel positions).  If the centre enters through another rounding, two concrete "
+             "positions whose rounded pixel lands on different window pixels are exhibited (exact rational "
+             "evaluation).  Necessary: the probe is placed relative to one fixed window pixel by the fraction "
+             "position - round(position); a window that does not follow round(position) rigidly is a pixel off the "
+             "probe for some positions, so the true object/probe pair gives a non-zero error and is modified")
     ctx.rule("R-FRACSHIFT", "the probe carried from one scan position to the next is re-positioned by "
              "(position - R(position)) - (old_position - R(old_position)) in every overlap projection, and by "
              "R(position) - position after the sweep in reconstruct(), R being the rounding that places the object "
